@@ -120,6 +120,57 @@ def routing_unit(M):
     return h
 
 
+def restart_unit(M):
+    """after a restart the pairing is rebuilt from the characteristic cache (the real BlePairing.__init__): the freshness baseline of
+    encrypted broadcasts is the cached state number, not any other cached number"""
+    def h(ex):
+        state_num = ex.fresh_int("cached_state_num", 1, 65535)
+        config_num = ex.fresh_int("cached_config_num", 1, 255)
+
+        class Cache:
+            def get_map(self, hkid):
+                return {"config_num": config_num, "state_num": state_num, "broadcast_key": None, "accessories": []}
+
+        class Ctl:
+            _char_cache = Cache()
+
+        pd = {"AccessoryPairingID": BA.ADV_ID_STR, "AccessoryAddress": "aa:bb", "iOSPairingId": "me", "Connection": "BLE"}
+        p = M.blep.BlePairing(Ctl(), pd)
+        d = p.description
+        ex.require(d is not None, "a pairing restored from the cache has a description")
+        if d is not None:
+            ex.require(d.state_num == state_num, "the restored last accepted state number is the cached state number")
+            ex.require(d.config_num == config_num, "the restored configuration number is the cached one")
+            ex.require(d.id == BA.ADV_ID_STR and d.address == "aa:bb", "the restored description names this accessory")
+        return ex.observe("ok")
+    return h
+
+
+def two_keys_unit(M):
+    """two broadcast keys in one process (a second pairing, or the same one after its key was regenerated): what was sealed under one
+    key never opens under the other, whatever either has been used for before"""
+    def h(ex):
+        sym = M.sym
+        n = ex.fresh_int("nonce_counter", 1, 65535)
+        pt = rope(int_to_rope(n, 2, "little"), int_to_rope(BA.KNOWN_IID, 2, "little"), b"\x01" + bytes(7))
+        if sym:
+            W = World.get()
+            ka, kb = W.term(("key", "A"), 32), W.term(("key", "B"), 32)
+            sealed_a = BA.IdealPartialTag(ka).seal(BA.nonce(n), pt, BA.ADV_ID)
+            sealed_for_b_with_a = BA.IdealPartialTag(ka).seal(BA.nonce(n), pt, BA.OTHER_ADV_ID)
+        else:
+            ka, kb = (b"A" * 32), (b"B" * 32)
+            sealed_a = BA.seal_real(ka, n, pt.concrete(), BA.ADV_ID)
+            sealed_for_b_with_a = BA.seal_real(ka, n, pt.concrete(), BA.OTHER_ADV_ID)
+        key_a, key_b = M.key.BroadcastDecryptionKey(ka), M.key.BroadcastDecryptionKey(kb)
+        first = key_a.decrypt(sealed_a if sym else bytes(sealed_a), n, BA.ADV_ID)
+        ex.require(first not in (None, False), "the key that sealed a notification opens it")
+        second = key_b.decrypt(sealed_for_b_with_a if sym else bytes(sealed_for_b_with_a), n, BA.OTHER_ADV_ID)
+        ex.require(second in (None, False), "a notification sealed under another pairing's key does not open, also for a nonce that key has already been tried with")
+        return ex.observe("ok")
+    return h
+
+
 def build(tier, mutate=None):
     C = BA.copies(mutate)
     R = BA.reals()
@@ -136,6 +187,9 @@ def build(tier, mutate=None):
                       bounds={"characteristic id": "0x0123 (two significant bytes)", "otherwise": "as notification-step/uint8"},
                       regions=["accepted", "ignored"], diff_sample=120))
     units.append(Unit("routing", routing_unit(C), routing_unit(R), bounds={"advertising id": "own / other", "payload": "12 arbitrary bytes"}, regions=["routed"]))
+    if tier != "canary":
+        units.append(Unit("restart/description-from-cache", restart_unit(C), restart_unit(R), bounds={"cached state number": "1..65535", "cached configuration number": "1..255"}))
+        units.append(Unit("two-keys/same-nonce", two_keys_unit(C), two_keys_unit(R), bounds={"nonce counter": "1..65535 (symbolic)"}))
     return units
 
 
